@@ -127,6 +127,11 @@ Example C12_ex_group_wrap :
    EvPend 1544; EvFail; EvPend 1544; EvYield 544 (Some 1544)].
 Proof. vm_compute. repeat split; discriminate. Qed.
 
+Example C12_ex_group_reset :
+  fst (g_run true (g_init (Some 1000)) [GReserve 0; GStore true; GReset; GSync 7; GReserve 0]) =
+  [EvPend 2000; EvYield 1000 (Some 2000); EvDone; EvDone; EvYield 1001 (Some 2000)].
+Proof. vm_compute. reflexivity. Qed.
+
 Example C12_ex_event_wrap :
   e_kv_ok (Some 18446744073709550000) /\
   fst (e_run true (e_init (Some 18446744073709550000))
